@@ -139,6 +139,35 @@ def string_write_rules(prog, rep):
             rep.ok("str-refuse-before-return", f"{wa.cls.name}.{f.name}: calls write(); its ValueError is not translated on the way out")
 
 
+def fields_encoded_at_write_time(prog, rep, rule="str-encoded-when-written"):
+    """`BTSString.write(width, text)` refuses and encodes the text it is GIVEN: a field encoded anywhere but in the serialiser that
+    emits it (a constructor or setter that stores `BTSString.write(..)` on the object for `_write` to emit later) is the encoding of
+    an older text once the attribute has been assigned again - the string written is not the one the object carries, and a new text
+    that does not fit is not refused."""
+    n = 0
+    bad = 0
+    for m in prog.modules.values():
+        for cls in m.classes.values():
+            if cls.name == "BTSString":
+                continue
+            for f in cls.all_funcs():
+                for st in walk_no_nested(f.node):
+                    if not isinstance(st, (ast.Assign, ast.AnnAssign, ast.AugAssign)):
+                        continue
+                    val = st.value
+                    if val is None or not any(isinstance(c, ast.Call) and norm(c.func) in ("BTSString.write",) for c in ast.walk(val)):
+                        continue
+                    n += 1
+                    tgs = st.targets if isinstance(st, ast.Assign) else [st.target]
+                    stored = [t for t in tgs for y in ast.walk(t) if isinstance(y, ast.Attribute) and isinstance(y.ctx, ast.Store)]
+                    if stored:
+                        bad += 1
+                        rep.fail(rule, m.path.name, f"{cls.name}.{f.name}", st, f"`{norm(st)[:70]}` keeps an encoded string field on the object: the serialiser emits the text as it was then, "
+                                 "not the attribute's value at write time (a later, longer or unencodable text is neither written nor refused)", construct=f"{cls.name}.{f.name} stores an encoded field")
+    if not bad:
+        rep.ok(rule, f"no class keeps the result of BTSString.write on an object ({n} local uses): fixed-width text is encoded where it is emitted")
+
+
 def run(prog, rep):
     rep.explanation = (
         "byte-length abstract domain over the body of BTSString.write: lengths are linear forms over `size` and "
@@ -150,6 +179,7 @@ def run(prog, rep):
     )
     mod = "tdfTypes.py"
     string_write_rules(prog, rep)
+    rep.attempt(fields_encoded_at_write_time, prog, rep)
     # 'reading it back returns the identical string': reader and writer use one codec at every call site
     from .. import primitives as PR
     rep.attempt(PR.string_codec, prog, rep, with_nul_cut=False)
